@@ -32,7 +32,27 @@ struct OrderCheck {
     return recursive() && !og;
   }
   // populated as oomd may have seen it: value at tick start or at entry
+  // subtrees emptied under oomd's hands while this invocation ran: whether
+  // a cgroup inside (or above) one counts as populated depends on when oomd
+  // looked
+  bool emptiedKnown = false;
+  std::vector<std::string> emptied;
+  bool touchedByEmptying(const Cg& c) {
+    if (!emptiedKnown) {
+      emptiedKnown = true;
+      const std::string tag = "empty-on-freeze ";
+      for (size_t k = inv.begin; k <= inv.end && k < R.log.size(); k++)
+        if (R.log[k].kind == "edit" && R.log[k].a.compare(0, tag.size(), tag) == 0)
+          emptied.push_back(R.log[k].a.substr(tag.size()));
+    }
+    for (const auto& e : emptied)
+      if (isDescendantOrSelf(e, c.rel) || isDescendantOrSelf(c.rel, e))
+        return true;
+    return false;
+  }
   int populated(const Cg& c) {
+    if (touchedByEmptying(c))
+      return -1;
     bool now = w.isPopulated(c);
     bool before = now;
     if (Cg* c0 = w0.byInc(c.inc))
